@@ -26,16 +26,20 @@ Streams (S3, model vs implementation)
   fragment-vs-general  model against model, inside the driver: the header fragment of Msg/HeaderCode.lean against the
                      general code model of the wire codec (Wire/Code.lean, C01/C02) on the signature yyyyuua(yv),
                      for every header built and every message parsed above (`gen=` in the driver's answers)
-Oracle (S4, implementation only; nothing from the model):
-  * wf_parse (strict structural parser written from the specification) accepts rawMessage; type code,
-    flag bits, version, serial = the fresh counter value != 0, body length word, the header fields are
-    exactly the non-None arguments each once with the specification's types, zero padding < 8,
-    rawMessage = rawHeader + rawPadding + rawBody, length <= the limit
-  * parse(build(x)) == x and parse(reference(x)) == x on type, serial, both flags, the nine attributes,
-    signature and (decoded) body
-  * serials over a run of constructions are >= 1 and strictly increasing
-  * a constructor given a name outside the DBus grammar, the reserved path (method call) or a body
-    that makes the message longer than the limit must raise
+Oracle (S4, implementation only; nothing from the model) - only what C03's statement says:
+  * wf_parse (strict structural parser written from the specification, incl. its header-field type table and required
+    fields) accepts rawMessage; type code, flag bits, version, body length word; the serial in the bytes is the object's
+    serial, non-zero, < 2^32; the header fields are exactly the non-None arguments each once; zero padding < 8;
+    rawMessage = rawHeader + rawPadding + rawBody
+  * parse(build(x)) == x and parse(reference(x)) == x on type, serial, both flags, the nine attributes, signature and
+    (decoded) body
+  * FRESH serial: over runs of constructions of all four classes (parse / forward in between, the counter never touched
+    by the harness) no serial is given twice, all >= 1 and < 2^32.  HOW the counter advances is S3 only
+  * a constructor given a name outside the DBus grammar or the reserved path (method call) must raise
+  * a message longer than the limit must not be constructed: 2^27 always; the class's lower `_maxMsgLen` only while a probe
+    (the suite's own test_too_long) shows that the code honours a subclass value.  Never: "exactly the limit must construct"
+  NOT judged here (model correspondence only): the bus's forwarding call `_marshal(False, rawBody=...)` (C14's statement),
+  UNIX_FDS for a pre-filled descriptor list, messages outside the statement (parse-wrongtype)
 """
 import json
 import struct
@@ -560,6 +564,23 @@ def check_tables(ctx, message, inp):
                      detail='a class table of message.py was mutated at run time')
 
 
+_LIMIT_PROBE = {}
+
+
+def limit_honoured(message):
+    """Does a subclass's lower `_maxMsgLen` take effect (what tests/test_message.py::test_too_long checks)?"""
+    if id(message) not in _LIMIT_PROBE:
+        saved = message.DBusMessage._nextSerial
+        try:
+            type('E', (message.ErrorMessage,), {'_maxMsgLen': 1})('foo.bar', 5)
+            _LIMIT_PROBE[id(message)] = False
+        except Exception:
+            _LIMIT_PROBE[id(message)] = True
+        finally:
+            message.DBusMessage._nextSerial = saved
+    return _LIMIT_PROBE[id(message)]
+
+
 def real_max(message, x):
     """The `_maxMsgLen` the constructed object will see: the class's own value unless the case lowers it."""
     if x['max'] != DEFAULT_MAX:
@@ -840,11 +861,16 @@ def judge_build(ctx, marshal, message, stream, x, mline):
         ctx.violation('reserved-path-constructible', 'a method call on the reserved path /org/freedesktop/DBus/Local is constructed',
                       inp=public(x), observed='constructed', expected='MarshallingError')
         return obs, m, oob_after
-    # the statement names the 128 MiB protocol limit; a lowered `_maxMsgLen` of a subclass (tests/test_message.py) is a
-    # feature of the code: model correspondence (S3) only
-    if obs['ok'] and len(m.rawMessage) > DEFAULT_MAX:
-        ctx.violation('oversize-constructible', 'a message of %d bytes (> 2^27) is constructed' % len(m.rawMessage),
-                      inp=public(x), observed=len(m.rawMessage), expected='MarshallingError')
+    # The statement: "a message exceeding the 128 MiB protocol limit cannot be constructed".  The library states that
+    # limit as the class attribute `_maxMsgLen`, and tests/test_message.py::test_too_long pins that a subclass which
+    # lowers it is refused longer messages.  The oracle therefore judges "longer than min(2^27, the class's
+    # `_maxMsgLen`) cannot be constructed" - the lowered part ONLY while the code demonstrably honours a subclass value
+    # (probe = the suite's own test); code that takes the limit from elsewhere is judged against 2^27 alone.
+    # It is never demanded that a message of exactly the limit IS constructible.
+    limit = min(x['max'], DEFAULT_MAX) if limit_honoured(message) else DEFAULT_MAX
+    if obs['ok'] and len(m.rawMessage) > limit:
+        ctx.violation('oversize-constructible', 'a message of %d bytes is constructed; the limit of its class is %d'
+                      % (len(m.rawMessage), limit), inp=public(x), observed=len(m.rawMessage), expected='MarshallingError')
         return obs, m, oob_after
     if not obs['ok']:
         return obs, m, oob_after
@@ -865,7 +891,7 @@ def check_wellformed(ctx, x, obs, m, oob_after, nfds):
         bad('raw-parts-differ', 'rawMessage != rawHeader + rawPadding + rawBody', obs['raw'][:400])
         return
     try:
-        wf = R.wf_parse(raw, fds=oob_after, max_len=DEFAULT_MAX)
+        wf = R.wf_parse(raw, fds=oob_after, max_len=DEFAULT_MAX)   # (the class limit is judged in judge_build)
     except R.NotWF as e:
         bad('not-well-formed', 'the serialised %s is not a well-formed DBus message: %s' % (CLSNAME[x['cls']], e),
             obs['raw'][:400], 'a message the strict parser accepts')
@@ -1379,33 +1405,39 @@ def run_serial_sequence(ctx, marshal, message, n):
 
 
 def run_real_limit(ctx, marshal, message):
-    """The real 128 MiB limit, once (thorough tier): exactly 2^27 bytes is constructible, one more is not."""
+    """The real 128 MiB limit (thorough tier): messages of 2^27 - 1 .. 2^27 + 8 bytes with 7 bytes of header padding:
+    whatever is longer than 2^27 must be refused (a size check that forgets the padding lets 2^27+1..2^27+7 through);
+    what is constructed must parse back.  That a message of exactly 2^27 bytes IS constructible is not demanded."""
     message.DBusMessage._nextSerial = 77
-    probe = message.SignalMessage('/a', 'm', 'a.b', signature='s', body=['x'])
+    member = 'm'
+    for k in range(1, 9):                       # a header that needs 7 bytes of padding
+        probe = message.SignalMessage('/a', 'm' * k, 'a.b', signature='s', body=['x'])
+        if len(probe.rawPadding) == 7:
+            member = 'm' * k
+            break
     overhead = len(probe.rawMessage) - 1
-    for extra, should in ((0, True), (1, False)):
+    for extra in (-1, 0, 1, 7, 8):
         n = 2 ** 27 - overhead + extra
         s = 'x' * n
         try:
-            m = message.SignalMessage('/a', 'm', 'a.b', signature='s', body=[s])
+            m = message.SignalMessage('/a', member, 'a.b', signature='s', body=[s])
             size = len(m.rawMessage)
-            ok = True
+            ok, err = True, None
         except Exception as e:
             ok, size, err = False, None, exc_name(e)
         ctx.impl_trace()
         ctx.case('real-limit', sample={'string_length': n, 'constructed': ok}, n=1)
-        inp = {'kind': 'real-limit', 'string_length': n}
+        inp = {'kind': 'real-limit', 'string_length': n, 'member': member}
         if ok and size > 2 ** 27:
-            ctx.violation('oversize-constructible', 'a message of %d bytes (> 2^27) is constructed' % size, inp=inp,
-                          observed=size, expected='MarshallingError')
-        if not ok and should:
-            ctx.note('a message of exactly 2^27 bytes is refused (%s): not demanded by the statement, recorded only' % err)
-        if ok and should:
-            if size != 2 ** 27:
-                raise RuntimeError('real-limit probe arithmetic is off: %d' % size)
+            ctx.violation('oversize-constructible', 'a message of %d bytes (2^27 + %d) is constructed' % (size, size - 2 ** 27),
+                          inp=inp, observed=size, expected='MarshallingError')
+        if not ok and extra <= 0:
+            ctx.note('a message of 2^27%+d bytes is refused (%s): not demanded by the statement, recorded only' % (extra, err))
+        if ok and size <= 2 ** 27:
             pm = message.parseMessage(m.rawMessage, [])
             if pm.body != [s] or pm.serial != m.serial:
-                ctx.violation('parse-own-differs', 'the 2^27-byte message does not parse back', inp=inp)
+                ctx.violation('parse-own-differs', 'the %d-byte message does not parse back' % size, inp=inp)
+            del pm
         del s
 
 
